@@ -241,6 +241,9 @@ func extractOffsets(repo, root string) error {
 	b.WriteString("inductive SeekOut where\n  | ok (newOffset returned : Int) | badWhence | outOfRange | readError\n  deriving DecidableEq, Repr, Inhabited\n\n")
 	b.WriteString("/-- conn.go (*Conn).Seek executed symbolically, path by path: `cur` = c.offset before, `whence` with the\nSeekDontCheck flag cleared, `dc` = that flag, `offsets` = result of ReadOffsets (`none` = error) -/\n")
 	fmt.Fprintf(&b, "def seekSrc (cur offset whence : Int) (dc : Bool) (offsets : Option (Int × Int)) : SeekOut :=\n  %s\n\n", tree)
+	if err := emitMakeError(repo, &b); err != nil {
+		return err
+	}
 	if err := emitWireSince(repo, &b); err != nil {
 		return err
 	}
